@@ -36,6 +36,20 @@ structure InScope (tok : String → List Tok) (r : Frame) : Prop where
   small : ∀ s, (tok s).length < 2 ^ 32
   rows : r.rows.length < 2 ^ 40
 
+/-- `key` is a KEY COLUMN of `f`, as `validate_key_attr` demands (`len(table[key].unique()) == len(table)` and no
+    null): no value is missing, and no two rows hold values that are equal as Python values — pandas' `unique()`
+    identifies `1`, `1.0` and `True` (and `0`, `0.0`, `False`), whereas `'1'` differs from `1` (`Cell.pyEq`).
+    Stronger than "the cells are pairwise different": the column `[1, 1.0]` is not a key column. -/
+def KeyColumn (f : Frame) (key : String) : Prop :=
+  (f.col key).Pairwise (fun x y => x.pyEq y = false) ∧ ∀ c ∈ f.col key, c.isMissing = false
+
+instance (f : Frame) (key : String) : Decidable (KeyColumn f key) := by unfold KeyColumn; infer_instance
+
+/-- two different rows of `f` (positions `i < j`) hold key values that are equal as Python values: the same value
+    twice, or e.g. `1` and `1.0`, `1` and `True`, `0.0` and `False` -/
+def SameKeyTwice (f : Frame) (key : String) : Prop :=
+  ∃ i j, i < j ∧ j < f.rows.length ∧ (keyOf f key (f.rows.getD i [])).pyEq (keyOf f key (f.rows.getD j [])) = true
+
 /-- every value of column `attr` is missing or a Python `str` — what the tokenizer needs: a present value of any
     other type (int, float, bool, bytes, … in an object column) makes `tokenizer.tokenize` raise
     `TypeError: Input is expected to be a string`, and with it every entry point that tokenizes the column -/
